@@ -3036,4 +3036,40 @@ theorem gen_newUserClaims (subject : Str) :
   by_cases h : subject = [] <;> simp [h]
   exact ⟨rfl, rfl, rfl⟩
 
+/-! ## C08 / C14: the remaining `SigningKeys` methods -/
+
+/-- `AddScopedSigner(s)`: stores the scope under the key the scope itself reports; a nil scope or a nil map panics -/
+theorem v2_addScopedSigner (sk : GoMap Str (Option V2.I_Scope)) (u : V2.T_UserScope) :
+    V2.SigningKeys_AddScopedSigner sk (some (.UserScope u)) = mapSet sk u.f_Key (some (.UserScope u)) := by
+  unfold V2.SigningKeys_AddScopedSigner
+  cases sk <;> simp [V2.I_Scope.SigningKey, V2.UserScope_SigningKey, mapSet]
+
+/-- `GetScope(k)`: the stored value and whether the key is present (a plain key is present with a nil scope) -/
+theorem v2_getScope (sk : GoMap Str (Option V2.I_Scope)) (k : Str) :
+    V2.SigningKeys_GetScope sk k = some (match mapGet sk k with | some v => (v, true) | none => (none, false)) := by
+  unfold V2.SigningKeys_GetScope
+  cases h : mapGet sk k <;> simp [h]
+
+/-- `Remove(keys...)`: deletes each key, never panics (also on a nil map) -/
+theorem v2_skRemove (sk : GoMap Str (Option V2.I_Scope)) (keys : List Str) :
+    V2.SigningKeys_Remove sk keys = some (keys.foldl mapDelete sk) := by
+  have hb : ∀ (i : Int) (k : Str) (m : GoMap Str (Option V2.I_Scope)),
+      V2.SigningKeys_Remove.loop1 i k m = some (.next (mapDelete m k)) := by
+    intro i k m; rfl
+  simp [V2.SigningKeys_Remove, forRange, forRangeFrom_fold _ _ hb]
+
+/-- `Keys()`: the keys of the entries, in the order the map is visited -/
+theorem v2_skKeys (sk : GoMap Str (Option V2.I_Scope)) :
+    V2.SigningKeys_Keys sk = some ((mapEntries sk).map (·.1)) := by
+  have hb : ∀ (i : Int) (e : Str × Option V2.I_Scope) (ks : List Str),
+      V2.SigningKeys_Keys.loop1 i e ks = some (.next (ks ++ [e.1])) := by
+    intro i e ks; rfl
+  have hf : ∀ (es : List (Str × Option V2.I_Scope)) (ks : List Str),
+      es.foldl (fun ks e => ks ++ [e.1]) ks = ks ++ es.map (·.1) := by
+    intro es
+    induction es with
+    | nil => intro ks; simp
+    | cons e es ih => intro ks; simp [ih]
+  simp [V2.SigningKeys_Keys, forRange, forRangeFrom_fold _ _ hb, hf]
+
 end Jwt.FnTie
